@@ -47,6 +47,7 @@ ASSUMPTIONS = [
     "part is an uninterpreted function",
 ]
 
+AUTONOMOUS = ("auto", "polyauto")
 G_RE = z3.Function("g_eom", z3.RealSort(), z3.RealSort(), z3.RealSort(), z3.RealSort())
 # fixed polynomial used for g in the concrete (frac / real) runs
 G_COEF = (1 / 3.0, -1 / 2.0, 1 / 4.0, 1 / 5.0, 1 / 8.0)
@@ -59,7 +60,7 @@ def _obj_arange(*a, **kw):
 def sym_env_extra():
     ex = {}
     for mod, names in (("oqupy.system_dynamics", ("float", "complex", "int")), ("oqupy.dynamics", ("float", "complex")),
-                       ("oqupy.system", ("float", "complex")), ("oqupy.tempo", ("float",))):
+                       ("oqupy.system", ("float", "complex"))):
         for n in names:
             ex["%s.%s" % (mod, n)] = BUILTIN_SHADOWS[n]
     # `start_time + np.arange(n) * dt` with symbolic dt
@@ -84,7 +85,9 @@ def vdot(x, y):
 
 
 class FieldEom:
-    """kind: 'uf' g(t, a) | 'auto' g(a) (no explicit time) | 'linear' alpha + beta t (no state dependence)"""
+    """kind: 'uf' g(t, a) uninterpreted | 'auto' g(a) uninterpreted (no explicit time)
+    | 'poly' c0 + c1 t + c2 a + c3 t a | 'polyauto' c0 + c2 a (symbolic coefficients)
+    | 'linear' alpha + beta t (no state dependence)"""
 
     def __init__(self, inp, kind, dims):
         self.inp, self.kind = inp, kind
@@ -95,8 +98,14 @@ class FieldEom:
             self.L = None
         else:
             self.L = [inp.arr("L%d" % s, (d, d)) for s, d in enumerate(dims)]
+        if kind in ("poly", "polyauto"):
+            self.c = inp.arr("gc", (4,))
 
     def g(self, t, a):
+        if self.kind == "polyauto":
+            return self.c[0] + self.c[2] * a
+        if self.kind == "poly":
+            return self.c[0] + self.c[1] * t + self.c[2] * a + self.c[3] * t * a
         if self.kind == "linear":
             return self.alpha + self.beta * t
         if self.kind == "auto":
@@ -211,11 +220,11 @@ def build_pt(inp, name, d, N, bond, dt):
 class Oracle:
     """documented Heun scheme; `advance(s, n, P1s, P2s)` returns the state of system s at step n+1"""
 
-    def __init__(self, eom, systems, rho0s, a0, start, dt, N, advance):
+    def __init__(self, eom, systems, rho0s, a0, start, dt, N, advance, initial=None):
         self.t = [start + n * dt for n in range(N + 1)]
         self.a = [a0]
         self.k1, self.euler = [], []
-        self.rho = [list(rho0s)]
+        self.rho = [list(rho0s) if initial is None else [initial(s) for s in range(len(systems))]]
         P1 = [[] for _ in systems]
         P2 = [[] for _ in systems]
         for n in range(N):
@@ -258,11 +267,13 @@ def same(inp, x, y):
     return abs(x - y) <= 1e-8 * (1 + abs(y))
 
 
-def call_obs(inp, calls, points, what):
-    """every evaluation of the equation of motion happens at a documented (t, a) point"""
+def call_obs(inp, calls, points, what, with_time=True):
+    """every evaluation of the equation of motion happens at a documented (t, a) point
+    (with_time=False: equation without explicit time dependence, only the field value matters)"""
     obs = []
+    yes = z3.BoolVal(True) if inp.symbolic else True
     for k, (t, a) in enumerate(calls):
-        alts = [(same(inp, t, pt), same(inp, a, pa)) for pt, pa in points]
+        alts = [(same(inp, t, pt) if with_time else yes, same(inp, a, pa)) for pt, pa in points]
         if inp.symbolic:
             cond = sym.SB(z3.Or(*[z3.And(x, y) for x, y in alts]))
         else:
@@ -300,7 +311,7 @@ class Cdwf(Case):
         tag = "%s_N%d_d%s_b%d_e%d_%s%s%s" % (kind, N, "x".join(map(str, dims)), bond, nenv, coupling,
                                              "_symtime" if symtime else "_t0.5", "" if record_all else "_last")
         # defect class: equation of motion with explicit time dependence in compute_dynamics_with_field
-        self.id = ("H1/cdwf_field_time/" if kind != "auto" else "H1/cdwf_auto/") + tag
+        self.id = ("H1/cdwf_field_time/" if kind not in AUTONOMOUS else "H1/cdwf_auto/") + tag
         self.bounds = {"N": N, "dims": list(dims), "bond": bond, "envs": nenv, "eom": kind, "symbolic_times": symtime,
                        "record_all": record_all, "coupling": coupling}
         self.env = {"noconj": True, "extra": sym_env_extra()}
@@ -328,7 +339,8 @@ class Cdwf(Case):
         def advance(s, n, P1, P2):
             d = dims[s]
             return lib.oracle_pt_dynamics(rho0s[s], envs[s], P1, P2, n + 1).reshape(d, d)
-        orc = Oracle(eom, systems, rho0s, a0, start, dt, N, advance)
+        orc = Oracle(eom, systems, rho0s, a0, start, dt, N, advance,
+                     initial=lambda s: lib.oracle_pt_dynamics(rho0s[s], envs[s], [], [], 0).reshape(dims[s], dims[s]))
         fields = list(dyn._fields)
         times = list(dyn._times)
         sdyn = [lib.dynamics_states(x) for x in dyn.system_dynamics]
@@ -361,7 +373,7 @@ class Cdwf(Case):
                     obs.append(Ob.eq("system %d step %d: field given to propagators" % (s, step), f, orc.a[step]))
                     obs.append(Ob.eq("system %d step %d: derivative given to propagators" % (s, step), der, orc.k1[step]))
         if self.kind != "linear":
-            obs += call_obs(inp, calls, orc.documented_points(), "cdwf")
+            obs += call_obs(inp, calls, orc.documented_points(), "cdwf", with_time=self.kind not in AUTONOMOUS)
         else:
             # exact integral of alpha + beta t
             for i, n in enumerate(steps):
@@ -479,7 +491,7 @@ class Mft(Case):
                     obs.append(Ob.eq("system %d step %d: field given to propagators" % (s, step), f, orc.a[step]))
                     obs.append(Ob.eq("system %d step %d: derivative given to propagators" % (s, step), der, orc.k1[step]))
         if self.kind != "linear":
-            obs += call_obs(inp, calls, orc.documented_points(), "mft")
+            obs += call_obs(inp, calls, orc.documented_points(), "mft", with_time=self.kind not in AUTONOMOUS)
         else:
             for n in range(N + 1):
                 tn = start + n * dt
@@ -501,7 +513,7 @@ class Cross(Case):
     def __init__(self, kind, N, K, dims=(2,), coupling="sparse", record_all=True):
         self.kind, self.N, self.K, self.dims, self.coupling, self.record_all = kind, N, K, tuple(dims), coupling, record_all
         tag = "%s_N%d_K%s_d%s_%s%s" % (kind, N, K, "x".join(map(str, dims)), coupling, "" if record_all else "_last")
-        self.id = ("H1/cdwf_field_time/cross_" if kind != "auto" else "H1/cross_auto/") + tag
+        self.id = ("H1/cdwf_field_time/cross_" if kind not in AUTONOMOUS else "H1/cross_auto/") + tag
         self.bounds = {"N": N, "dkmax": K, "dims": list(dims), "eom": kind, "coupling": coupling, "start_time": 0.5, "dt": 0.25,
                        "record_all": record_all}
         self.env = {"noconj": True, "extra": sym_env_extra()}
@@ -657,7 +669,7 @@ def cases(tier):
         # MeanFieldTempo
         Mft("uf", 2, 1), Mft("linear", 3, 2, coupling="none"), Mft("uf", 2, None, coupling="none"),
         # cross-method
-        Cross("auto", 2, 1), Cross("uf", 2, 1),
+        Cross("polyauto", 2, 1), Cross("poly", 2, 1),
         H2(None), H2(4),
     ]
     if tier == "thorough":
@@ -668,8 +680,8 @@ def cases(tier):
             Cdwf("linear", 3, symtime=False, bond=1, coupling="none"), Cdwf("uf", 2, dims=(2, 2), bond=1, coupling="sparse"),
             Mft("uf", 3, 1, coupling="sparse"), Mft("uf", 3, 2, coupling="sparse"), Mft("auto", 2, 1, dims=(2, 2), coupling="sparse"),
             Mft("uf", 3, None, coupling="sparse"), Mft("linear", 3, 1),
-            Cross("auto", 3, 1), Cross("auto", 3, 2), Cross("auto", 2, 1, dims=(2, 2)), Cross("auto", 2, 1, record_all=False),
-            Cross("uf", 3, 2), Cross("auto", 3, None),
+            Cross("polyauto", 3, 1), Cross("polyauto", 3, 2), Cross("polyauto", 2, 1, dims=(2, 2)),
+            Cross("polyauto", 2, 1, record_all=False), Cross("poly", 3, 2), Cross("polyauto", 3, None),
             H2(None, d=3),
         ]
     return cs
